@@ -82,7 +82,10 @@ MCSpec == MCInit /\ [][MCNext]_<<m, c>>
 Finished == m.ph \in {"end", "rejected"}
 (* the fragment is total: these programs never need an observation (gas limits above the      *)
 (* model's bound are the one exception, and they are invalid anyway unless huge)               *)
-Total == m.ph = "stuck" => c.tx.gas > MaxTxGasModel
+Total == m.ph = "stuck" =>
+   \/ c.tx.gas > MaxTxGasModel
+   \/ LET f == Top(m) IN \/ OpAt(f.code, f.pc) = 3 /\ St(f.stack, 1) < St(f.stack, 2)     \* SUB below zero: a value >= 2^30
+                         \/ OpAt(f.code, f.pc) = 81                                       \* MLOAD of bytes written unaligned
 FramesSane == m.ph = "run" => /\ \A i \in DOMAIN m.fr : m.fr[i].gas >= 0 /\ Len(m.fr[i].stack) <= 1024 /\ m.fr[i].depth = i - 1
                               /\ GasHeld(m) <= m.tx.gas + 2300 * Len(m.fr)
 TotalBal(w) == LET S[k \in 0..Len(c.accts)] == IF k = 0 THEN 0 ELSE S[k - 1] + Bal(w, c.accts[k].addr) IN S[Len(c.accts)]
